@@ -126,9 +126,15 @@ CORPORA = {
                                                 and b["prog"][3]["x"] == 3)),
     # one fusable node under two differently transposed paths (all 216 triples of 3-D permutations x 3 middles): C04, C02, C08
     "d1-diamond": dict(acts=["Diamond"], maxlen=1, preset="cube", sim=False, emit_all=True, workers=4, final_only=True),
+    # operands on different grids ; elemwise (chunk unification) ; reduction / scan: the consumer may be constructed under
+    # another unification policy than the operand (C09)
+    "d3-unify-reduce": dict(acts=["Rechunk"], acts2=["Elemwise"], acts3=["Reduce", "ArgReduce", "Cumulative", "Index"], maxlen=3, preset="lean1",
+                            sim=False, lean=True, workers=4),
     # many blocks along one axis: Blelloch / sequential scans and reduction trees over 9..33 unit blocks
     "d1-scan-long": dict(acts=["Cumulative"], maxlen=1, preset="long", sim=False, lean=True, emit_all=True),
     "d1-red-long": dict(acts=["Reduce", "ArgReduce"], maxlen=1, preset="long", sim=False, lean=True, emit_all=True),
+    # map_blocks with a harness function / an importable NumPy function / a wrapper borrowing its identity (C07, C06)
+    "d1-mapplain": dict(acts=["MapPlain"], maxlen=1, preset="lean", sim=False, lean=True, emit_all=True),
     # a node with two fusable dependencies (iteration order of dependency sets must not leak into names / keys)
     "d1-join": dict(acts=["Join"], maxlen=1, preset="lean", sim=False, lean=True, emit_all=True, final_only=True),
     # einsum patterns that choose index letters while parsing (ellipsis, several contracted indices)
@@ -217,6 +223,13 @@ def stride_sample(behs, stride, offset=0):
         return behs
     keyed = sorted(behs, key=lambda b: json.dumps(b["prog"], sort_keys=True))
     return keyed[offset % stride::stride]
+
+
+def corpus_kwargs(name):
+    """-> (keyword arguments for replay.generate_programs, the corpus's own flags)"""
+    kw = dict(CORPORA[name])
+    flags = {k: kw.pop(k, None) for k in ("keep", "observe_all", "group", "final_only")}
+    return kw, flags
 
 
 def dev_filter(plans):
